@@ -25,6 +25,8 @@ from vlib.gen.drivers import absent_optional_packages
 from vlib.gen.drivers import custom_samples
 from vlib.gen.drivers import doe_capabilities
 from vlib.gen.drivers import doe_cases
+from vlib.gen.drivers import instance_cases
+from vlib.gen.drivers import mixed_cases
 from vlib.gen.drivers import HarnessProblem
 from vlib.gen.drivers import near_one_component
 from vlib.gen.drivers import opt_cases
@@ -60,7 +62,13 @@ RULE = (
     "values and NaN Jacobians (finite values, drawn rule) recorded as NaN without ending the DOE, samples refused by "
     "a ValueError rule disturb nobody, nothing but samples is evaluated, counter "
     "== new entries; a second DOE run sees only the new samples, a prefix of them within the remaining budget when "
-    "counters are kept.  Non-trivial = an execution that GEMSEO ended (message contains 'GEMSEO stopped the "
+    "counters are kept.  Further dimensions: optional observable (also a new-iteration observable) on any problem; stop "
+    "mode 'nan_grad' (problem.stop_if_nan=False and a gradient that becomes NaN with finite values, gradient-based "
+    "algorithms: a NaN design vector must end the run with a result); kkt_tol_abs / kkt_tol_rel in {1e9, 1e-3}; "
+    "scaling_threshold in {0.1, 1, 100}; drive 'instances': ONE library instance executed on 2-3 different problems "
+    "(the first with an observable), every execution held to all the oracles above; drive 'mixed': an optimisation "
+    "(possibly ended by a ValueError of a user function, which execute lets through) followed by a DOE on the same "
+    "problem, held to the DOE oracles.  Non-trivial = an execution that GEMSEO ended (message contains 'GEMSEO stopped the "
     "driver') or a DOE holding a duplicated or failing sample or cut by a kept counter; distinct = structural hash "
     "of the payload."
 )
@@ -97,6 +105,10 @@ ASSUMPTIONS = [
     "recomputing one gradient for ever) contradicts no clause of the statement and gets no verdict (class "
     "stalled_on_recorded_points_cut_by_harness); a 30 s watchdog (SIGALRM) is a safety net for runs that call nothing "
     "of the harness: it yields 'inconclusive', never a verdict",
+    "the single evaluation of a user's MDOLinearFunction at the lower bounds made by MDOLinearFunction.normalize while "
+    "the problem is preprocessed is not counted as a point of the driver",
+    "kkt_tol_abs / kkt_tol_rel are drawn with store_jacobian=True (documented requirement) and a 1-D objective gradient "
+    "(LagrangeMultipliers rejects a (1, n) one); scaling_threshold in {0.1, 1, 100}",
     "third-party internal caches count as part of the algorithm: repeated calls at one point are never counted twice",
     "with max_time only the degenerate value 1e-9 is generated (fires at the first new-iteration callback; no "
     "wall-clock oracle)",
@@ -122,6 +134,9 @@ K_LP_EARLY_STOP = "coefficient_solver_early_stop_type_error"
 K_GLOBAL_LISTENER = "global_optimizer_listener_left_behind"
 K_MULTISTART_NORM = "multistart_normalized_design_space"
 K_DOE_NORM = "doe_normalized_design_space"
+K_SCALING = "scaling_threshold_applied"
+K_KKT_LISTENER = "kkt_listener_left_behind"
+K_STALE_CALLBACK = "listeners_left_after_exception"
 
 EXCLUDED_ALGORITHMS = {
     "MNBI": "multi-objective only: its result is a MultiObjectiveOptimizationResult built from the Pareto front of the "
@@ -156,8 +171,15 @@ class Excluded(Exception):
     """The case belongs to the class of an open ledger entry (or to a documented exception): no verdict."""
 
 
-def _execute(h, algo, max_iter, settings, extra, ctx, where):
-    """Run one optimisation; return (result, runaway).  Any exception other than the harness cap is a violation."""
+class UserRaised(Exception):
+    """A user function raised (drawn rule) and execute let the exception through: expected, the run has no result."""
+
+
+def _execute(h, algo, max_iter, settings, extra, ctx, where, lib=None):
+    """Run one optimisation; return (result, runaway).  Any exception other than the harness cap is a violation.
+
+    ``lib``: an existing library instance to execute (histories re-using one instance); default: a fresh one.
+    """
     from gemseo.algos.opt.factory import OptimizationLibraryFactory
 
     gc.disable()  # finalizers of multiprocessing.Value objects must not run inside the C callbacks of NLopt
@@ -169,7 +191,10 @@ def _execute(h, algo, max_iter, settings, extra, ctx, where):
     try:
         with warnings.catch_warnings():
             warnings.simplefilter("ignore")
-            result = OptimizationLibraryFactory().execute(h.problem, algo_name=algo, max_iter=max_iter, **settings, **extra)
+            if lib is None:
+                result = OptimizationLibraryFactory().execute(h.problem, algo_name=algo, max_iter=max_iter, **settings, **extra)
+            else:
+                result = lib.execute(h.problem, max_iter=max_iter, **settings, **extra)
     except Runaway:
         return None, True
     except WallTimeout:
@@ -179,6 +204,9 @@ def _execute(h, algo, max_iter, settings, extra, ctx, where):
     except Exception as exc:  # noqa: BLE001
         if h.state["runaway"]:
             return None, True
+        if h.state["raised"] and isinstance(exc, ValueError) and "harness: the function refuses this point" in str(exc):
+            ctx.cls("user_exception_let_through")
+            raise UserRaised from None
         if algo == "MNBI" and isinstance(exc, RuntimeError) and "No feasible optimum found" in str(exc):
             ctx.cls("mnbi_documented_runtime_error")  # documented: "RuntimeError: If no optimum is found for one of the objectives"
             return None, False
@@ -315,19 +343,27 @@ def _budget_oracles(h, p, ctx, where, algo, cap, n_iter, marks, old_keys, allowe
 
 
 # --------------------------------------------------------------------------- optimisation oracle
-def case_opt(p, ctx):
+def _scaling_applied(h, threshold) -> bool:
+    """scaling_threshold really rescales a function: |value at x0| of the objective or of a constraint exceeds it."""
+    n = 1 + len(h.spec["cons"])
+    return any(bool(np.any(np.abs(poly.value(h.x0)) > threshold)) for poly in h.polys[:n])
+
+
+def case_opt(p, ctx, lib=None):
+    """One optimisation case (with its optional second execution).  Returns (status, harness problem)."""
     cp = caps()["opt"]
     algo = p["algo"]
     if algo not in cp:
         ctx.cls("algorithm_not_in_factory")
-        return
+        return "skipped", None
     cap = cp[algo]
     if problem_matches(cap, p["problem"]):
         ctx.cls("capability_mismatch_payload")
-        return
+        return "skipped", None
     np.random.seed(int(p["seed"]))
     h = HarnessProblem(p["problem"], cap=CAP_CALLS)
     settings = dict(p["settings"])
+    h.normalized = bool(settings["normalize_design_space"])
     use_db = settings["use_database"]
     n_iter = int(p["max_iter"])
     coefficient_solver = cap["library"] in ("ScipyLinprog", "ScipyMILP")
@@ -337,19 +373,32 @@ def case_opt(p, ctx):
         ctx.cls("constrained")
     if any(v["type"] == "integer" for v in p["problem"]["space"]["vars"]):
         ctx.cls("integer_variables")
+    if p["problem"].get("obs"):
+        ctx.cls("with_observable")
+    if any(k.startswith("kkt_tol") for k in settings):
+        ctx.cls("kkt_tolerance_set")
 
     try:
         if algo == "MultiStart" and settings["normalize_design_space"] and ctx.known(K_MULTISTART_NORM):
             raise Excluded
-        _case_opt(p, ctx, cp, algo, cap, h, settings, use_db, n_iter, coefficient_solver)
+        if "scaling_threshold" in settings:
+            applied = _scaling_applied(h, float(settings["scaling_threshold"]))
+            ctx.cls("scaling_threshold_applied" if applied else "scaling_threshold_not_reached")
+            if applied and ctx.known(K_SCALING):
+                raise Excluded
+        _case_opt(p, ctx, cp, algo, cap, h, settings, use_db, n_iter, coefficient_solver, lib)
     except Excluded:
         ctx.cls("excluded_by_known_finding")
+        return "excluded", h
+    except UserRaised:
+        return "user_raised", h
+    return "done", h
 
 
-def _case_opt(p, ctx, cp, algo, cap, h, settings, use_db, n_iter, coefficient_solver):
+def _case_opt(p, ctx, cp, algo, cap, h, settings, use_db, n_iter, coefficient_solver, lib=None):
     # ----- first execution
     marks = h.mark()
-    result, runaway = _execute(h, algo, n_iter, settings, p["extra"], ctx, "first execution")
+    result, runaway = _execute(h, algo, n_iter, settings, p["extra"], ctx, "first execution", lib)
     if not use_db:
         ctx.cls("database_off")
         if runaway:
@@ -394,7 +443,8 @@ def _case_opt(p, ctx, cp, algo, cap, h, settings, use_db, n_iter, coefficient_so
     if stopped_by_gemseo:
         ctx.cls("gemseo_stopped_the_driver")
         for token, name in (("Maximum number", "max_iter"), ("objective function are closer", "ftol"), ("design variables are closer", "xtol"),
-                            ("Maximum time", "max_time"), ("NaN", "nan"), ("KKT", "kkt")):
+                            ("Maximum time", "max_time"), ("NaN", "nan"), ("KKT", "kkt"),
+                            ("Design variables are NaN", "nan_design_vector")):
             if token in message:
                 ctx.cls(f"criterion:{name}")
         ctx.nontriv(p)
@@ -405,6 +455,8 @@ def _case_opt(p, ctx, cp, algo, cap, h, settings, use_db, n_iter, coefficient_so
     # ----- second execution on the same problem
     second = p.get("second")
     if second is not None and cap["global"] and p["problem"]["cons"] and ctx.known(K_GLOBAL_LISTENER):
+        second = None
+    if second is not None and cap["kkt"] and any(k.startswith("kkt_tol") for k in settings) and ctx.known(K_KKT_LISTENER):
         second = None
     if second is not None and cp.get(second["algo"], {}).get("linear_only") and p["problem"]["cons"] and not p["problem"]["feasible_x0"]:
         second = None  # possibly infeasible LP: outside the property (hand-written or shrunk payloads only)
@@ -447,6 +499,69 @@ def case_composite(p, ctx):
     case_opt(p, ctx)
 
 
+# --------------------------------------------------------------------------- histories
+def case_instances(p, ctx):
+    """One library instance executed on several problems (some with observables): each execution is held to every oracle."""
+    from gemseo.algos.doe.factory import DOELibraryFactory
+    from gemseo.algos.opt.factory import OptimizationLibraryFactory
+
+    kind, algo = p["kind"], p["algo"]
+    if algo not in caps()[kind]:
+        ctx.cls("algorithm_not_in_factory")
+        return
+    lib = (OptimizationLibraryFactory() if kind == "opt" else DOELibraryFactory()).create(algo)
+    ctx.cls(f"instance:{kind}")
+    observable_then_none = False
+    seen_observable = False
+    for step in p["steps"]:
+        has_obs = bool(step["problem"].get("obs"))
+        if seen_observable and not has_obs:
+            observable_then_none = True
+        seen_observable = seen_observable or has_obs
+        if kind == "opt":
+            status, _ = case_opt(dict(step, second=None), ctx, lib=lib)
+        else:
+            status = case_doe(dict(step, second=None), ctx, lib=lib)
+        if status != "done":
+            return  # an excluded class or a harness cut may leave the instance in an unspecified state
+    if observable_then_none:
+        ctx.cls("instance_observable_then_plain_problem")
+        ctx.nontriv(p)
+
+
+def case_mixed(p, ctx):
+    """An optimisation, possibly ended by an exception of a user function, then a DOE on the same problem."""
+    opt, doe = p["opt"], p["doe"]
+    if doe["algo"] not in caps()["doe"]:
+        ctx.cls("algorithm_not_in_factory")
+        return
+    status, h = case_opt(dict(opt, second=None), ctx)
+    if status not in ("done", "user_raised") or h is None:
+        return
+    ctx.cls("mixed_after_user_exception" if status == "user_raised" else "mixed_after_result")
+    if status == "user_raised" and ctx.known(K_STALE_CALLBACK):
+        ctx.cls("excluded_by_known_finding")
+        return
+    if any(k.startswith("kkt_tol") for k in opt["settings"]) and caps()["opt"][opt["algo"]]["kkt"] and ctx.known(K_KKT_LISTENER):
+        ctx.cls("excluded_by_known_finding")
+        return
+    if h.state["runaway"]:
+        return
+    for counted in h.counted:
+        counted.raise_rule = None  # the DOE sees well-behaved functions
+        counted.raised_keys.clear()
+    old_keys = {point_key(k) for k in h.db_keys()}
+    marks = h.mark()
+    np.random.seed(int(doe["seed"]))
+    _, samples = _run_doe(h, doe, ctx, "DOE after the optimisation")
+    if _signed_zero_twins(samples):
+        ctx.cls("doe_signed_zero_twin_samples_no_verdict")
+        return
+    stats = _doe_oracles(h, doe, ctx, "DOE after the optimisation", samples, old_keys, marks, None)
+    if stats["n_fresh"]:
+        ctx.nontriv(p)
+
+
 def _timed(fn):
     import os
     import time
@@ -460,7 +575,7 @@ def _timed(fn):
             return fn(p, ctx)
         finally:
             if time.time() - t0 > 1.0:
-                print("SLOW", round(time.time() - t0, 1), p["algo"], p.get("max_iter"), p.get("stop"), p.get("second"), p.get("settings"), flush=True)
+                print("SLOW", round(time.time() - t0, 1), p.get("algo"), p.get("max_iter"), p.get("stop"), p.get("second"), p.get("settings"), flush=True)
 
     return wrapper
 
@@ -481,11 +596,12 @@ def _doe_settings(p, h, seed_shift=0):
     return s
 
 
-def _run_doe(h, p, ctx, where, seed_shift=0, **more):
+def _run_doe(h, p, ctx, where, seed_shift=0, lib=None, **more):
     from gemseo.algos.doe.factory import DOELibraryFactory
     from gemseo.algos.optimization_result import OptimizationResult
 
-    lib = DOELibraryFactory().create(p["algo"])
+    if lib is None:
+        lib = DOELibraryFactory().create(p["algo"])
     settings = _doe_settings(p, h, seed_shift)
     parallel = int(p.get("n_processes", 1)) > 1
     try:
@@ -579,7 +695,7 @@ def _doe_oracles(h, p, ctx, where, samples, old_keys, marks, budget_left):
               f"{where}: database keys of the non-failing samples are not the de-duplicated samples in generation order",
               keys=[k.tolist() for k in new_ok_keys][:12], samples=[srow.tolist() for srow in expected][:12])
     # each distinct sample evaluated exactly once by every function, exact value recorded
-    names = [h.obj_name, *h.con_names]
+    names = [h.obj_name, *h.con_names, *h.obs_names]  # same order as h.counted
     for k in new_ok_keys:
         kb = point_key(k)
         for i, (counted, name) in enumerate(zip(h.counted, names)):
@@ -634,12 +750,12 @@ def _signed_zero_twins(samples) -> bool:
     return any(len(v) > 1 for v in by_value.values())
 
 
-def case_doe(p, ctx):
+def case_doe(p, ctx, lib=None):
     cd = caps()["doe"]
     algo = p["algo"]
     if algo not in cd:
         ctx.cls("algorithm_not_in_factory")
-        return
+        return "skipped"
     seed = int(p["seed"])
     np.random.seed(seed)
     try:
@@ -650,14 +766,17 @@ def case_doe(p, ctx):
         pass
     if p["normalize_design_space"] and ctx.known(K_DOE_NORM):
         ctx.cls("excluded_by_known_finding")
-        return
+        return "excluded"
     h = HarnessProblem(p["problem"], cap=CAP_CALLS)
+    h.normalized = bool(p["normalize_design_space"])
     ctx.cls(f"doe:{algo}")
+    if p["problem"].get("obs"):
+        ctx.cls("doe_with_observable")
     marks = h.mark()
-    result, samples = _run_doe(h, p, ctx, "first execution")
+    result, samples = _run_doe(h, p, ctx, "first execution", lib=lib)
     if _signed_zero_twins(samples):
         ctx.cls("doe_signed_zero_twin_samples_no_verdict")
-        return
+        return "no_verdict"
     stats = _doe_oracles(h, p, ctx, "first execution", samples, set(), marks, None)
     counter = int(h.problem.evaluation_counter.current)
     ctx.check(counter == stats["n_new"], "counter", f"the evaluation counter holds {counter} after a DOE that created {stats['n_new']} entries")
@@ -694,7 +813,7 @@ def case_doe(p, ctx):
         _, samples2 = _run_doe(h, p, ctx, "second execution", seed_shift=0 if second["same_seed"] else 1, reset_iteration_counters=reset)
         if _signed_zero_twins(np.vstack([samples, samples2])):
             ctx.cls("doe_signed_zero_twin_samples_no_verdict")
-            return
+            return "no_verdict"
         left = None if reset else max(0, len(samples2) - counter)
         if left is not None and int(p.get("n_processes", 1)) > 1:
             left = len(samples2)  # the forked workers test copies of the counter: only the budget of this run applies
@@ -705,9 +824,10 @@ def case_doe(p, ctx):
                 ctx.cls("doe_second_cut_by_kept_counter")
                 ctx.nontriv(("second", p))
     ctx.sample({"oracle": "doe", "algo": algo, "settings": p["settings"], **stats, "second": p.get("second")})
+    return "done"
 
 
-ORACLES = {"opt": case_opt, "composite": case_composite, "doe": case_doe}
+ORACLES = {"opt": case_opt, "composite": case_composite, "doe": case_doe, "instances": case_instances, "mixed": case_mixed}
 
 
 def run(ctx):
@@ -728,10 +848,15 @@ def run(ctx):
     shrink = 15.0 if ctx.tier == "quick" else 120.0
     for name in single:
         if not failed("opt"):
-            ctx.drive("opt", opt_cases(cp["opt"], [name], non_global), _timed(case_opt), quick=16, thorough=90, shrink_s=shrink)
+            ctx.drive("opt", opt_cases(cp["opt"], [name], non_global), _timed(case_opt), quick=(40 if cp["opt"][name]["library"] == "Nlopt" else 24) if cp["opt"][name]["grad"] else 16,
+                      thorough=90, shrink_s=shrink)
     for name in composite:
         if not failed("composite"):
             ctx.drive("composite", opt_cases(cp["opt"], [name]), _timed(case_composite), quick=10, thorough=80, shrink_s=shrink)
+    if not failed("opt") and not failed("doe"):
+        ctx.drive("instances", instance_cases(cp["opt"], non_global, cp["doe"], sorted(cp["doe"])), _timed(case_instances),
+                  quick=40, thorough=250, shrink_s=shrink)
+        ctx.drive("mixed", mixed_cases(cp["opt"], non_global, cp["doe"]), _timed(case_mixed), quick=40, thorough=250, shrink_s=shrink)
     for name in sorted(cp["doe"]):
         if not failed("doe"):
             ctx.drive("doe", doe_cases(cp["doe"], [name]), _timed(case_doe), quick=6, thorough=50, shrink_s=shrink)
